@@ -17,10 +17,10 @@ Definition reachw (c : cfg) (w0 : Z) (inst : bool) : gst -> Prop := reachable (f
 Lemma valid_b_tid t : valid_b t = true -> valid_tid t.
 Proof. unfold valid_b, valid_tid. intros H. apply andb_true_iff in H as [A B]. apply Z.ltb_lt in A, B. lia. Qed.
 
-Lemma try_act_step c s a s' : try_act c s a = Some s' -> exists act, step c s act s'.
+Lemma try_act_step c ns np s a s' : try_act c ns np s a = Some s' -> exists act, step c s act s'.
 Proof.
-  unfold try_act. destruct (valid_b (s_tid a) && pre_ok s (s_act a)) eqn:V; [|discriminate].
-  apply andb_true_iff in V as [V _]. apply valid_b_tid in V.
+  unfold try_act. destruct (valid_b (s_tid a) && eligible ns np (s_act a) && pre_ok s (s_act a)) eqn:V; [|discriminate].
+  apply andb_true_iff in V as [V _]. apply andb_true_iff in V as [V _]. apply valid_b_tid in V.
   destruct (m_kind (s_act a) =? 0).
   - destruct (gstep c s (s_tid a)) as [s1|] eqn:G; [|discriminate].
     destruct (post_ok s s1 (s_tid a) (s_act a)); [|discriminate]. intros H. injection H as <-.
@@ -31,33 +31,33 @@ Proof.
     exists (ABegin (s_tid a) k). split; assumption.
 Qed.
 
-Lemma pick_step c oo s qs : forall ord seen w d t s', pick c oo s qs ord seen w d = Some (t, s') -> exists act, step c s act s'.
+Lemma pick_step c ns np oo s qs : forall ord seen w d t s' m, pick c ns np oo s qs ord seen w d = Some (t, s', m) -> exists act, step c s act s'.
 Proof.
-  induction ord as [|u r IH]; intros seen w d t s' H; destruct w as [|w']; destruct d as [|d']; cbn [pick] in H; try discriminate.
+  induction ord as [|u r IH]; intros seen w d t s' m H; destruct w as [|w']; destruct d as [|d']; cbn [pick] in H; try discriminate.
   destruct (existsb (Z.eqb u) seen); [eapply IH; exact H|].
   destruct (lookup u qs) as [|a l]; [eapply IH; exact H|].
   destruct (negb oo || is_obs (s_act a)); [|eapply IH; exact H].
-  destruct (try_act c s a) as [s1|] eqn:T; [|eapply IH; exact H].
-  injection H as _ <-. eapply try_act_step. exact T.
+  destruct (try_act c ns np s a) as [s1|] eqn:T; [|eapply IH; exact H].
+  injection H as _ <- _. eapply try_act_step. exact T.
 Qed.
-Lemma pick2_step c s qs ord w : forall depths t s', pick2 c s qs ord w depths = Some (t, s') -> exists act, step c s act s'.
+Lemma pick2_step c ns np s qs ord w : forall depths t s' m, pick2 c ns np s qs ord w depths = Some (t, s', m) -> exists act, step c s act s'.
 Proof.
-  induction depths as [|d ds IH]; intros t s' H; cbn [pick2] in H; [discriminate|].
-  destruct (pick c true s qs ord [] w d) as [[t1 s1]|] eqn:P.
-  - injection H as _ <-. eapply pick_step. exact P.
-  - destruct (pick c false s qs ord [] w d) as [[t1 s1]|] eqn:P2.
-    + injection H as _ <-. eapply pick_step. exact P2.
+  induction depths as [|d ds IH]; intros t s' m H; cbn [pick2] in H; [discriminate|].
+  destruct (pick c ns np true s qs ord [] w d) as [[[t1 s1] m1]|] eqn:P.
+  - injection H as _ <- _. eapply pick_step. exact P.
+  - destruct (pick c ns np false s qs ord [] w d) as [[[t1 s1] m1]|] eqn:P2.
+    + injection H as _ <- _. eapply pick_step. exact P2.
     + eapply IH. exact H.
 Qed.
 
-Theorem sched_reach c L depths w0 inst : forall fuel w s qs ord done ok s' done' rest ok' qs',
-  reachw c w0 inst s -> sched c L depths fuel w s qs ord done ok = (s', done', rest, ok', qs') -> reachw c w0 inst s'.
+Theorem sched_reach c L depths w0 inst : forall fuel w ns np s qs ord done ok s' done' rest ok' qs',
+  reachw c w0 inst s -> sched c L depths fuel w ns np s qs ord done ok = (s', done', rest, ok', qs') -> reachw c w0 inst s'.
 Proof.
-  induction fuel as [|f IH]; intros w s qs ord done ok s' done' rest ok' qs' R H; cbn [sched] in H.
+  induction fuel as [|f IH]; intros w ns np s qs ord done ok s' done' rest ok' qs' R H; cbn [sched] in H.
   - injection H as <- _ _ _ _. exact R.
   - destruct ord as [|a r]; [injection H as <- _ _ _ _; exact R|].
-    destruct (pick2 c s qs (a :: r) w depths) as [[t s1]|] eqn:P.
-    + destruct (pick2_step c s qs _ _ _ _ _ P) as (act & St). eapply IH; [|exact H]. eapply reach_step; eauto.
+    destruct (pick2 c ns np s qs (a :: r) w depths) as [[[t s1] m1]|] eqn:P.
+    + destruct (pick2_step c ns np s qs _ _ _ _ _ _ P) as (act & St). eapply IH; [|exact H]. eapply reach_step; eauto.
     + injection H as <- _ _ _ _. exact R.
 Qed.
 
@@ -219,7 +219,7 @@ Proof. intros t _. reflexivity. Qed.
    recorded start word), it satisfies the invariant, and the boolean the replay printed could not have been false *)
 Theorem replay_sound c w0 inst L depths fuel w qs ord s' done' rest ok' qs' :
   init_word_ok w0 = true ->
-  sched c L depths fuel w (init_from w0 inst) qs ord 0 true = (s', done', rest, ok', qs') ->
+  sched c L depths fuel w 0 0 (init_from w0 inst) qs ord 0 true = (s', done', rest, ok', qs') ->
   reachw c w0 inst s' /\ Inv c s'.
 Proof.
   intros H0 H. assert (R : reachw c w0 inst s').
